@@ -1,5 +1,7 @@
 package type3
 
+import "encoding/hex"
+
 // C03 (type 3 protocol steps): arbitrary peer bytes into FinalizeToken, Evaluate, VerifyRequest
 // and FinalizeIndex never panic, loop or over-allocate.
 
@@ -108,11 +110,4 @@ func VerifC03_type3_finalize_index() {
 	}
 }
 
-func hexOf(b []byte) string {
-	const digits = "0123456789abcdef"
-	out := make([]byte, 0, 2*len(b))
-	for _, c := range b {
-		out = append(out, digits[c>>4], digits[c&15])
-	}
-	return string(out)
-}
+func hexOf(b []byte) string { return hex.EncodeToString(b) }
